@@ -306,14 +306,36 @@ def idx2 (l : List Param) (i j : Nat) : Except Panic Nat :=
 
 def u8 (n : Nat) : Nat := n % 256
 
+/-- The numbers in the body of `case 38 / 48 / 58` of the two `[][]int` consumers (round 4: extracted, `Gen.SgrCases.parseSGRExt` /
+    `emuSgrExt`): the bounds checks of the legacy form on `len(params[i:])` (before the selector is read, and under selector 2),
+    the `i += K` jumps (selector 5, selector 2), the selector each colon form (3, 5, 6 sub-parameters) insists on.
+    The defaults are what the code has today. -/
+structure ExtNums where
+  legacyMin : Nat := 3
+  rgbMin : Nat := 5
+  idxSkip : Nat := 2
+  rgbSkip : Nat := 4
+  s3 : Nat := 5
+  s5 : Nat := 2
+  s6 : Nat := 2
+  deriving DecidableEq, Repr
+
 structure Cfg where
   labels : List Nat
   arities : List (Nat × List Nat × Bool)
   ulSubs : List Nat
+  /-- per first parameter 38 / 48 / 58: `[legacyMin, rgbMin, idxSkip, rgbSkip, s3, s5, s6]` as extracted -/
+  ext : List (Nat × List Nat)
 
-def parseCfg : Cfg := ⟨SgrCases.parseSGRLabels, SgrCases.parseSGRArities, SgrCases.parseSGRUlSubs⟩
-def emuCfg : Cfg := ⟨SgrCases.emuSgrLabels, SgrCases.emuSgrArities, SgrCases.emuSgrUlSubs⟩
-def ssCfg : Cfg := ⟨SgrCases.ssParseLabels, SgrCases.ssParseArities, SgrCases.ssParseUlSubs⟩
+/-- The numbers `case p` is written with (the defaults when nothing was extracted for `p`). -/
+def Cfg.nums (cfg : Cfg) (p : Nat) : ExtNums :=
+  match cfg.ext.find? (fun r => r.1 == p) with
+  | some (_, [a, b, c, d, e, f, g]) => ⟨a, b, c, d, e, f, g⟩
+  | _ => {}
+
+def parseCfg : Cfg := ⟨SgrCases.parseSGRLabels, SgrCases.parseSGRArities, SgrCases.parseSGRUlSubs, SgrCases.parseSGRExt⟩
+def emuCfg : Cfg := ⟨SgrCases.emuSgrLabels, SgrCases.emuSgrArities, SgrCases.emuSgrUlSubs, SgrCases.emuSgrExt⟩
+def ssCfg : Cfg := ⟨SgrCases.ssParseLabels, SgrCases.ssParseArities, SgrCases.ssParseUlSubs, []⟩
 
 /-- Does the `switch len(…)` under `case p` have a clause for length `n`? -/
 def Cfg.accepts (cfg : Cfg) (p n : Nat) : Bool :=
@@ -359,40 +381,43 @@ inductive Next where
   | stop
   deriving DecidableEq, Repr
 
-/-- `case 38 / 48 / 58` of parseSGR and the emulator's sgr: `cur = params[i]`, `rest = params[i+1:]`. -/
+/-- `case 38 / 48 / 58` of parseSGR and the emulator's sgr: `cur = params[i]`, `rest = params[i+1:]`; the bounds, jumps and
+    selectors are the extracted numbers `cfg.nums p` (a changed bound changes the model: with `rgbMin = 4` it panics on `38;2;1;2`
+    as the Go code would). -/
 def extColour (cfg : Cfg) (p : Nat) (cur : Param) (rest : List Param) : Except Panic (Option Color × Next) :=
   let n := cur.length
+  let N := cfg.nums p
   if !cfg.accepts p n then .ok (none, .cont 0)
   else if n = 1 then
-    if rest.length + 1 < 3 then .ok (none, .stop)
+    if rest.length + 1 < N.legacyMin then .ok (none, .stop)
     else
       match idx2 rest 0 0 with
       | .error e => .error e
       | .ok k =>
         if k = 2 then
-          if rest.length + 1 < 5 then .ok (none, .stop)
+          if rest.length + 1 < N.rgbMin then .ok (none, .stop)
           else
             match idx2 rest 1 0, idx2 rest 2 0, idx2 rest 3 0 with
-            | .ok r, .ok g, .ok b => .ok (some (rgbColor (u8 r) (u8 g) (u8 b)), .cont 4)
+            | .ok r, .ok g, .ok b => .ok (some (rgbColor (u8 r) (u8 g) (u8 b)), .cont N.rgbSkip)
             | _, _, _ => .error .index
         else if k = 5 then
           match idx2 rest 1 0 with
-          | .ok v => .ok (some (indexColor (u8 v)), .cont 2)
+          | .ok v => .ok (some (indexColor (u8 v)), .cont N.idxSkip)
           | .error e => .error e
         else .ok (none, .stop)
   else if n = 3 then
     match idx cur 1, idx cur 2 with
-    | .ok k, .ok v => if k ≠ 5 then .ok (none, .stop) else .ok (some (indexColor (u8 v)), .cont 0)
+    | .ok k, .ok v => if k ≠ N.s3 then .ok (none, .stop) else .ok (some (indexColor (u8 v)), .cont 0)
     | _, _ => .error .index
   else if n = 5 then
     match idx cur 1, idx cur 2, idx cur 3, idx cur 4 with
     | .ok k, .ok r, .ok g, .ok b =>
-      if k ≠ 2 then .ok (none, .stop) else .ok (some (rgbColor (u8 r) (u8 g) (u8 b)), .cont 0)
+      if k ≠ N.s5 then .ok (none, .stop) else .ok (some (rgbColor (u8 r) (u8 g) (u8 b)), .cont 0)
     | _, _, _, _ => .error .index
   else if n = 6 then
     match idx cur 1, idx cur 3, idx cur 4, idx cur 5 with
     | .ok k, .ok r, .ok g, .ok b =>
-      if k ≠ 2 then .ok (none, .stop) else .ok (some (rgbColor (u8 r) (u8 g) (u8 b)), .cont 0)
+      if k ≠ N.s6 then .ok (none, .stop) else .ok (some (rgbColor (u8 r) (u8 g) (u8 b)), .cont 0)
     | _, _, _, _ => .error .index
   else .ok (none, .cont 0)
 
